@@ -250,12 +250,80 @@ unit({
         'UpdateCodeCount': T('AdaptiveHuffmanTree_UpdateCodeCount'), 'GetRootNodeIndex': N('AdaptiveHuffmanTree_GetRootNodeIndex'),
         'IsLeaf': T('AdaptiveHuffmanTree_IsLeaf'), 'GetChildNode': T('AdaptiveHuffmanTree_GetChildNode'), 'GetNodeData': T('AdaptiveHuffmanTree_GetNodeData'),
         'AdaptiveHuffmanTree': N('AdaptiveHuffmanTree_make', recv='none'),
-        'memcpy': N('op2_memcpy', recv='none'), 'memset': N('op2_memset', recv='none'),
     },
     'functions': [
         _lz('HuffLZ', cname='HuffLZ_ctor', ctor=True), _lz('InitializeDecompressBuffer'),
         _lz('GetData'), _lz('GetInternalBuffer'), _lz('FillDecompressBuffer'), _lz('CopyAvailableData'), _lz('DecompressCode'),
         _lz('GetNextCode'), _lz('GetRepeatOffset', autos={'modifiers': 'OffsetModifiers', 'i': 'unsigned int'}), _lz('WriteCharToBuffer'),
         _lz('GetOffsetModifiers', static=True, ret_cxx='OffsetModifiers'),
+    ],
+})
+
+# --------------------------------------------------------------------------- U-BMPH  (bitmap / tileset / PRT header arithmetic and validators)
+def ARR(name, elem, n):
+    return 'typedef struct %s { %s e[%d]; } %s;' % (name, elem, n, name)
+TAG_T = 'typedef struct Tag { char text[4]; } Tag;'
+IH = 'src/Bitmap/ImageHeader.cpp'; BH = 'src/Bitmap/BmpHeader.cpp'; BF = 'src/Bitmap/BitmapFile.cpp'
+BMP_TM = {'ImageHeader': 'ImageHeader', 'ImageHeaderV4': 'ImageHeaderV4', 'ImageHeaderV5': 'ImageHeaderV5', 'BmpHeader': 'BmpHeader', 'BmpCompression': 'BmpCompression', 'Color': 'Color',
+          'std::array<char,2>': 'arr_char_2', 'std::array<uint16_t,6>': 'arr_u16_6', 'std::vector<Color>': 'vec_Color', 'std::vector<uint8_t>': 'vec_u8',
+          'BitmapFile': 'BitmapFile', 'ScanLineOrientation': 'ScanLineOrientation', 'std::string': 'str'}
+def _ih(name, **kw):
+    d = {'file': IH, 'qual': 'ImageHeader::' + name, 'cls': 'ImageHeader', 'cname': 'ImageHeader_' + name}
+    d.update(kw); return d
+def _bf(name, **kw):
+    d = {'file': BF, 'qual': 'BitmapFile::' + name, 'cls': 'BitmapFile', 'cname': 'BitmapFile_' + name}
+    d.update(kw); return d
+BMP_STRUCTS = [ARR('arr_char_2', 'char', 2), ARR('arr_u16_6', 'uint16_t', 6), ('src/Bitmap/Color.h', 'Color'), ('src/Bitmap/ImageHeader.h', 'ImageHeader'),
+               ('src/Bitmap/ImageHeader.h', 'ImageHeaderV4'), ('src/Bitmap/ImageHeader.h', 'ImageHeaderV5'),
+               ('src/Bitmap/BmpHeader.h', 'BmpHeader'), VIEW('vec_Color', 'Color'), VIEW('vec_u8', 'uint8_t'), ('src/Bitmap/BitmapFile.h', 'BitmapFile')]
+BMP_GLOBALS = [
+    {'file': IH, 'qual': 'ImageHeader::DefaultPlanes', 'ctype': 'uint16_t', 'cname': 'ImageHeader_DefaultPlanes'},
+    {'file': IH, 'qual': 'ImageHeader::DefaultImageSize', 'ctype': 'uint32_t', 'cname': 'ImageHeader_DefaultImageSize'},
+    {'file': IH, 'qual': 'ImageHeader::DefaultXResolution', 'ctype': 'uint32_t', 'cname': 'ImageHeader_DefaultXResolution'},
+    {'file': IH, 'qual': 'ImageHeader::DefaultYResolution', 'ctype': 'uint32_t', 'cname': 'ImageHeader_DefaultYResolution'},
+    {'file': IH, 'qual': 'ImageHeader::DefaultUsedColorMapEntries', 'ctype': 'uint32_t', 'cname': 'ImageHeader_DefaultUsedColorMapEntries'},
+    {'file': IH, 'qual': 'ImageHeader::DefaultImportantColorCount', 'ctype': 'uint32_t', 'cname': 'ImageHeader_DefaultImportantColorCount'},
+    {'file': IH, 'qual': 'ImageHeader::ValidBitCounts', 'ctype': 'arr_u16_6', 'cname': 'ImageHeader_ValidBitCounts'},
+    {'file': BH, 'qual': 'BmpHeader::FileSignature', 'ctype': 'arr_char_2', 'cname': 'BmpHeader_FileSignature'},
+    {'file': BH, 'qual': 'BmpHeader::DefaultReserved1', 'ctype': 'uint16_t', 'cname': 'BmpHeader_DefaultReserved1'},
+    {'file': BH, 'qual': 'BmpHeader::DefaultReserved2', 'ctype': 'uint16_t', 'cname': 'BmpHeader_DefaultReserved2'},
+]
+BMP_CALLS = {
+    'VerifyValidBitCount': {0: T('ImageHeader_VerifyValidBitCount0'), 1: T('ImageHeader_VerifyValidBitCount', recv='none')},
+    'IsValidBitCount': {0: N('ImageHeader_IsValidBitCount0'), 1: N('ImageHeader_IsValidBitCount', recv='none')},
+    'IsIndexedImage': {0: N('ImageHeader_IsIndexedImage0'), 1: N('ImageHeader_IsIndexedImage', recv='none')},
+    'CalculatePitch': {0: N('ImageHeader_CalculatePitch0'), 2: N('ImageHeader_CalculatePitch', recv='none')},
+    'CalcPixelByteWidth': {0: N('ImageHeader_CalcPixelByteWidth0'), 2: N('ImageHeader_CalcPixelByteWidth', recv='none')},
+    'CalcMaxIndexedPaletteSize': {0: T('ImageHeader_CalcMaxIndexedPaletteSize0'), 1: T('ImageHeader_CalcMaxIndexedPaletteSize', recv='none')},
+    'IsValidFileSignature': N('BmpHeader_IsValidFileSignature'),
+    'VerifyFileSignature': T('BmpHeader_VerifyFileSignature'),
+    'Validate': T('ImageHeader_Validate'),
+    'VerifyIndexedPaletteSizeDoesNotExceedBitCount': {0: T('BitmapFile_VerifyIndexedPaletteSizeDoesNotExceedBitCount0'), 2: T('BitmapFile_VerifyIndexedPaletteSizeDoesNotExceedBitCount', recv='none')},
+    'VerifyPixelSizeMatchesImageDimensionsWithPitch': {0: T('BitmapFile_VerifyPixelSizeMatchesImageDimensionsWithPitch0'), 4: T('BitmapFile_VerifyPixelSizeMatchesImageDimensionsWithPitch', recv='none')},
+    'AbsoluteHeight': N('BitmapFile_AbsoluteHeight'),
+    'SwapRedAndBlue': N('Color_SwapRedAndBlue'),
+}
+unit({
+    'name': 'bmph',
+    'typemap': BMP_TM,
+    'enums': [('src/Bitmap/BmpCompression.h', 'BmpCompression'), ('src/Bitmap/BitmapFile.h', 'ScanLineOrientation')],
+    'structs': [STR_VIEW] + BMP_STRUCTS,
+    'globals': BMP_GLOBALS,
+    'scoped': {'BmpCompression': 'BmpCompression', 'ScanLineOrientation': 'ScanLineOrientation', 'ImageHeader': 'ImageHeader', 'BmpHeader': 'BmpHeader'},
+    'calls': BMP_CALLS,
+    'functions': [
+        _ih('Create', static=True), _ih('IsValidBitCount', nparams=1, static=True), _ih('IsIndexedImage', nparams=1, static=True),
+        _ih('VerifyValidBitCount', nparams=1, static=True), _ih('CalculatePitch', nparams=2, static=True, autos={'bytesOfPixelsPerRow': 'size_t'}),
+        _ih('CalcPixelByteWidth', nparams=2, static=True), _ih('CalcMaxIndexedPaletteSize', nparams=1, static=True),
+        _ih('CalcMaxIndexedPaletteSize', nparams=0, cname='ImageHeader_CalcMaxIndexedPaletteSize0'),
+        _ih('Validate'),
+        {'file': BH, 'qual': 'BmpHeader::Create', 'cls': 'BmpHeader', 'static': True, 'cname': 'BmpHeader_Create'},
+        {'file': BH, 'qual': 'BmpHeader::IsValidFileSignature', 'cls': 'BmpHeader', 'cname': 'BmpHeader_IsValidFileSignature'},
+        {'file': BH, 'qual': 'BmpHeader::VerifyFileSignature', 'cls': 'BmpHeader', 'cname': 'BmpHeader_VerifyFileSignature'},
+        _bf('VerifyIndexedPaletteSizeDoesNotExceedBitCount', nparams=2, static=True),
+        _bf('VerifyPixelSizeMatchesImageDimensionsWithPitch', nparams=4, static=True),
+        _bf('VerifyIndexedImageForSerialization', static=True),
+        _bf('GetScanLineOrientation'), _bf('AbsoluteHeight'),
+        {'file': 'src/Bitmap/Color.cpp', 'qual': 'Color::SwapRedAndBlue', 'cls': 'Color', 'cname': 'Color_SwapRedAndBlue'},
     ],
 })
